@@ -43,7 +43,10 @@ CloseFrameLegal ==
   /\ Len(E.cf) >= 2 => /\ (CloseCodeLegal(CfCode) \/ CloseCodeEither(CfCode))
                         /\ Feed("acc", SubSeq(E.cf, 3, Len(E.cf)), 1).st = "acc"       \* reason is complete, valid UTF-8
 
-TStep(next) == c' = next /\ Matches(next, E.obs) /\ CloseFrameLegal /\ UNCHANGED <<cfg, now>>
+\* an in-process transport reports the loss of the connection from inside loseConnection / abortConnection: the step that
+\* drops the connection and the loss are then one step
+Adj(next) == IF E.synclost THEN ConnLost(cfg, next) ELSE next
+TStep(next0) == LET next == Adj(next0) IN c' = next /\ Matches(next, E.obs) /\ CloseFrameLegal /\ UNCHANGED <<cfg, now>>
 
 TMade == /\ IsEvent("made") /\ l = 1
          /\ cfg' = [role |-> E.cfg.role, failByDrop |-> E.cfg.failByDrop, echo |-> E.cfg.echo, openTO |-> E.cfg.openTO,
@@ -70,10 +73,12 @@ TLost   == IsEvent("lost") /\ TStep(ConnLost(cfg, c))
 TAdv    == /\ IsEvent("adv")
            /\ now' = now + 1
            /\ \E order \in Perms(Due(c, now + 1)) :
-                 LET nx == FireAll(cfg, c, now + 1, order) IN c' = nx /\ Matches(nx, E.obs) /\ CloseFrameLegal
+                 LET nx == Adj(FireAll(cfg, c, now + 1, order)) IN c' = nx /\ Matches(nx, E.obs) /\ CloseFrameLegal
            /\ UNCHANGED cfg
 
-TNext == TMade \/ TOpened \/ TLClose \/ TLBurst \/ TLSend \/ TPClose \/ TPData \/ TPPing \/ TPPong \/ TPViol \/ TLost \/ TAdv
+\* the layer above fails the connection itself (as the WAMP transports do): same as a peer violation, whatever its reason text
+TLFail == /\ IsEvent("lfail") /\ TStep(PeerViolation(cfg, c, now))
+TNext == TLFail \/ TMade \/ TOpened \/ TLClose \/ TLBurst \/ TLSend \/ TPClose \/ TPData \/ TPPing \/ TPPong \/ TPViol \/ TLost \/ TAdv
 TraceSpec == TInit /\ [][TNext]_tvars
 
 Progress == TLCSet(tid, IF TLCGet(tid) < l THEN l ELSE TLCGet(tid))
